@@ -204,7 +204,7 @@ class Harness:
         build.cc([HARNESS_SRC] + objs, self.exe, objdir, extra=build.LINK_LIBS + ["-DLIBMCOUNT", "-DC01_WITH_PLT"])
         self.n = 0
 
-    def run(self, lines, nshow, env=None):
+    def run(self, lines, nshow, env=None, rev=False):
         self.n += 1
         d = os.path.join(self.ctx.scratch, "c01d%d" % (self.n % 4))
         shutil.rmtree(d, ignore_errors=True)
@@ -214,7 +214,7 @@ class Harness:
                   "UFTRACE_BUFFER": str(1 << 20)})
         if env:
             e.update({k: str(v) for k, v in env.items()})
-        p = subprocess.run([self.exe, str(nshow)], input="\n".join(lines) + "\nQUIT\n", env=e,
+        p = subprocess.run([self.exe, str(nshow)] + (["rev"] if rev else []), input="\n".join(lines) + "\nQUIT\n", env=e,
                            capture_output=True, text=True, timeout=60)
         for f in os.listdir(d):
             if f.startswith("sid-"):
@@ -260,6 +260,15 @@ def run_shadow_case(h, tree, env):
     rc, out, err = h.run(harness_lines(ops, owner), nshow, env)
     crashed = rc != 0 or len(out) != len(ops)
     return parse_shadow(tree, ops, owner, out, nshow, env, crashed, err)
+
+
+def run_est_case(h, tree):
+    """the tree under --estimate-return (UFTRACE_ESTIMATE_RETURN): slots live at decreasing addresses"""
+    ops, owner = full(tree)
+    nshow = tree_depth(tree) + 2
+    rc, out, err = h.run(harness_lines(ops, owner), nshow, {"UFTRACE_ESTIMATE_RETURN": "1", "UFTRACE_TRIGGER": TRIGGER}, rev=True)
+    crashed = rc != 0 or len(out) != len(ops)
+    return parse_shadow(tree, ops, owner, out, nshow, {"UFTRACE_ESTIMATE_RETURN": "1"}, crashed, err)
 
 
 def run_shadow_batch(h, trees, env):
@@ -389,7 +398,7 @@ Local Open Scope Z_scope.
 """
 
 
-def evaluate_chunk(ctx, scases, xcases, name, hcases=(), tcases=()):
+def evaluate_chunk(ctx, scases, xcases, name, hcases=(), tcases=(), ecases=()):
     defs = "Local Open Scope nat_scope.\nDefinition scases : list shadow_case := [\n%s\n].\nLocal Open Scope Z_scope.\n" % ";\n".join(coq_shadow_case(c) for c in scases)
     defs += "Definition xcases : list xmm_case := [\n%s\n].\n" % ";\n".join(
         "{| xc_avx := %s; xc_before := %s; xc_clobber := %s; xc_after := %s |}" % (coq.coq_bool(v), coq_yregs(b), coq_yregs(c), coq_yregs(a))
@@ -399,7 +408,11 @@ def evaluate_chunk(ctx, scases, xcases, name, hcases=(), tcases=()):
         for (hk, b, a, _) in hcases)
     defs += "Local Open Scope nat_scope.\nDefinition tcases : list stop_case := [\n%s\n].\nLocal Open Scope Z_scope.\n" % ";\n".join(
         coq_stop_case(c) for c in tcases)
+    defs += "Local Open Scope nat_scope.\nDefinition ecases : list shadow_case := [\n%s\n].\nLocal Open Scope Z_scope.\n" % ";\n".join(
+        coq_shadow_case(c) for c in ecases)
     res = coq.run_cases(ctx, name, PRE, defs, [
+        ("e_mismatch", "bad_indices est_agrees ecases 0"),
+        ("e_violations", "bad_indices est_ok ecases 0"),
         ("t_mismatch", "bad_indices stop_agrees tcases 0"),
         ("t_violations", "bad_indices stop_ok tcases 0"),
         ("s_mismatch", "bad_indices shadow_agrees scases 0"),
@@ -414,18 +427,19 @@ def evaluate_chunk(ctx, scases, xcases, name, hcases=(), tcases=()):
     return {k: coq.parse_nat_list(v) for k, v in res.items()}
 
 
-def evaluate(ctx, scases, xcases, name="cases", chunk=50, hcases=(), tcases=()):
+def evaluate(ctx, scases, xcases, name="cases", chunk=50, hcases=(), tcases=(), ecases=()):
     """model and checker evaluated by vm_compute inside Coq; chunks run in parallel coqc processes"""
     jobs = []
     for k, j in enumerate(range(0, max(len(scases), 1), chunk)):
         jobs.append((j, scases[j:j + chunk], xcases if k == 0 else []))
     with concurrent.futures.ThreadPoolExecutor(max_workers=6) as ex:
         rs = list(ex.map(lambda jb: evaluate_chunk(ctx, jb[1], jb[2], "%s_%d" % (name, jb[0]),
-                                                   hcases if jb[0] == 0 else (), tcases if jb[0] == 0 else ()), jobs))
+                                                   hcases if jb[0] == 0 else (), tcases if jb[0] == 0 else (),
+                                                   ecases if jb[0] == 0 else ()), jobs))
     if any(r is None for r in rs):
         return None
     res = {"s_mismatch": [], "s_violations": [], "x_mismatch": [], "x_violations": [], "h_mismatch": [], "h_violations": [],
-           "t_mismatch": [], "t_violations": []}
+           "t_mismatch": [], "t_violations": [], "e_mismatch": [], "e_violations": []}
     for (j, _, _), r in zip(jobs, rs):
         res["s_mismatch"] += [j + i for i in r["s_mismatch"]]
         res["s_violations"] += [j + i for i in r["s_violations"]]
@@ -435,6 +449,8 @@ def evaluate(ctx, scases, xcases, name="cases", chunk=50, hcases=(), tcases=()):
         res["h_violations"] += r["h_violations"]
         res["t_mismatch"] += r["t_mismatch"]
         res["t_violations"] += r["t_violations"]
+        res["e_mismatch"] += r["e_mismatch"]
+        res["e_violations"] += r["e_violations"]
     return res
 
 
@@ -846,11 +862,23 @@ def run(ctx):
         tcases.append(c)
         ctx.case(key=("stop", coq_tree(tree), c["cut"]), tags=["finish:in-process"] +
                  (["finish:tail-called-returns"] if "URet 1 (Real" in c["obs"] and any(o[0] == "E" and o[2] == c["slot"] for o in c["ops"][-1:]) else []))
-    ctx.log("ran %d call trees, %d xmm-pair, %d hook-call xmm and %d finish cases on libmcount"
-            % (len(scases), len(xcases), len(hcases), len(tcases)))
-    res = evaluate(ctx, [c for c in scases if not c["crashed"]], xcases, hcases=hcases, tcases=tcases)
+    ecases = []
+    for i in range(ctx.n(24, 300)):
+        tree = gen_tree(ctx.rng, SHAPES[i % len(SHAPES)], maxd=ctx.rng.choice([3, 5]), budget=ctx.rng.choice([6, 14]))
+        c = run_est_case(h, tree)
+        if c["crashed"]:
+            ctx.violation("libmcount crashed while driving a call tree under --estimate-return",
+                          {"kind": "est", "tree": json_tree(tree), "stderr": c["stderr"]}, True)
+            continue
+        ecases.append(c)
+        tags = set(["estimate-return"])
+        tree_tags(c["tree"], tags)
+        ctx.case(key=("est", coq_tree(c["tree"])), tags=sorted("est:" + t for t in tags if not t.startswith("leaf")))
+    ctx.log("ran %d call trees, %d xmm-pair, %d hook-call xmm, %d finish and %d estimate-return cases on libmcount"
+            % (len(scases), len(xcases), len(hcases), len(tcases), len(ecases)))
+    res = evaluate(ctx, [c for c in scases if not c["crashed"]], xcases, hcases=hcases, tcases=tcases, ecases=ecases)
     ctx.log("model evaluated in Coq:", res)
-    verdict(ctx, [c for c in scases if not c["crashed"]], xcases, res, hcases, tcases)
+    verdict(ctx, [c for c in scases if not c["crashed"]], xcases, res, hcases, tcases, ecases)
     # ---- monitors
     objdump_monitor(ctx, objdir)
     ctx.log("objdump monitor done")
@@ -861,9 +889,19 @@ def run(ctx):
     ctx.extra["xmm_cases"] = len(xcases)
 
 
-def verdict(ctx, scases, xcases, res, hcases=(), tcases=()):
+def verdict(ctx, scases, xcases, res, hcases=(), tcases=(), ecases=()):
     if res is None:
         return
+    for i in res.get("e_violations", [])[:3]:
+        c = ecases[i]
+        ctx.violation("C01 violated under --estimate-return: a return did not go to its real caller, errno changed or a "
+                      "return-address slot was written",
+                      {"kind": "est", "tree": json_tree(c["tree"]), "observed": [(u, idx, ws) for (u, idx, ws) in c["obs"]][:200]}, True)
+    if res.get("e_mismatch") and not res.get("e_violations"):
+        c = ecases[res["e_mismatch"][0]]
+        ctx.violation("--estimate-return model (Shadow.run_op_est / inject_return) and libmcount disagree on %d call trees "
+                      "(mtd.idx / slots)" % len(res["e_mismatch"]),
+                      {"kind": "est", "tree": json_tree(c["tree"]), "observed": [(u, idx, ws) for (u, idx, ws) in c["obs"]][:200]}, False)
     for i in res.get("t_violations", [])[:3]:
         c = tcases[i]
         ctx.violation("C01 violated: after tracing was told to finish, a traced function did not return to its real "
@@ -936,6 +974,13 @@ def replay(ctx, obj):
         res = evaluate(ctx, [], [(avx, before, clobber, after)], name="replay")
         ctx.log("replayed xmm case:", res)
         verdict(ctx, [], [(avx, before, clobber, after)], res)
+    elif kind == "est":
+        h = Harness(ctx, objdir)
+        c = run_est_case(h, tree_of_json(obj["tree"]))
+        ctx.case(key="replay", sample={"observed": c["obs"][:50]})
+        res = evaluate(ctx, [], [], name="replay", ecases=[c])
+        ctx.log("replayed estimate-return case:", res)
+        verdict(ctx, [], [], res, (), (), [c])
     elif kind == "stop":
         import random
         h = Harness(ctx, objdir)
